@@ -35,7 +35,8 @@ PROPS = {
     "C07": dict(units=["spawn", "exec"], kani=["w_pipe", "w_fork_ids"], level="proof"),
     "C15": dict(units=["exec", "splitpath"], kani=["b_split_path_b3"], level="proof",
                 bounded_scenarios=[("c15_path_lookup", "198 lookups on a real file system: all 64 placements of {nothing, non-executable file, directory, executable} under 3 PATH directories x 3 PATH spellings (plain, with empty and duplicate entries), plus 6 slash / explicit-executable cases")]),
-    "C17": dict(units=["spawn", "exec"], kani=[], level="proof"),
+    "C17": dict(units=["spawn", "exec"], kani=["w_chdir"], level="proof",
+                bounded_scenarios=[("c17_child_allocs", "96 spawns with a counting allocator armed in the forked child: 8 PATH shapes (longest entry first/middle/last/single/40 entries/empty entries) x 3 cwd lengths (none, 4, 500 bytes) x {exec succeeds, program not found} x {small, 50 args + 60 env entries + pipes}")]),
     "C20": dict(units=[], kani=[], level="other",
                 explanation="BOUNDED stand-in, not a proof: assemble_cmdline and append_quoted live in the cfg(windows) module and are extracted mechanically into a native program that round-trips argument vectors through an independent implementation of the Microsoft parsing rules.",
                 natives=[("units/native/wincmd.nt.rs", "28907 argument vectors: 1 argument of length 0..4, pairs (length 0..2, first 400 of length 0..4) and triples of length 0..2 over the alphabet {a, space, tab, newline, double quote, backslash, U+00E9}; 57 arguments containing NUL")]),
@@ -43,8 +44,10 @@ PROPS = {
                 bounded_scenarios=[("c19_shell_roundtrip", "1778 argument vectors (1-2 arguments of length 0..3 over the alphabet a,space,',\",$,*,\\,newline,e-acute, plus 24 hand-picked strings) printed through Debug and evaluated by the real /bin/sh; one two-stage pipeline")]),
     "C18": dict(units=["spawn"], kani=["w_reset_sigpipe"], level="proof"),
     "C12": dict(units=["builder", "pstate"], kani=[], level="proof"),
-    "C13": dict(units=["builder"], kani=[], level="proof"),
-    "C14": dict(units=["builder"], kani=[], level="proof"),
+    "C13": dict(units=["builder"], kani=[], level="proof",
+                bounded_scenarios=[("c13_pipeline_shapes", "14 pipelines: 2..5 stages in every composition shape (iterator, left-nested |, pipeline|pipeline, Pipeline|Exec) through the real crate and sh; join/capture against a first stage that closes its streams and keeps working")]),
+    "C14": dict(units=["builder"], kani=[], level="proof",
+                bounded_scenarios=[("c14_partial_failure", "99 failing pipelines: n = 2..4 `cat` stages, every failing position, stdin null/pipe/data, popen/join/capture/communicate/stream_stdout/stream_stdin; promptness, no child left, descriptor count")]),
     "C16": dict(units=["builder"], bounded_scenarios=[("c16_builder_model", "1631 command descriptions: every sequence of up to 3 of 9 builder edits (env/env_remove/env_clear/env_extend/arg), each also through a clone taken half-way, run through the real crate and /bin/sh against a plain model")],
                 kani=["r_exec_stdin_refuses", "r_exec_stdout_refuses", "r_exec_stderr_refuses", "r_exec_terminators_refuse_data", "w_exec_stdin_accepts"], level="proof"),
     "C08": dict(units=["spawn", "builder"], kani=["w_pipe", "w_set_inheritable"], level="proof"),
@@ -154,6 +157,7 @@ KANI = {
     "r_exec_stderr_refuses": dict(about="Exec::stderr never returns outside (None, any) | (Pipe, Pipe)", tags=["C16"]),
     "r_exec_terminators_refuse_data": dict(about="check_no_stdin_data never returns while input data is pending (popen/join/stream_*)", tags=["C16"]),
     "w_exec_stdin_accepts": dict(about="the accepted cases of Exec::stdin do return (vacuity guard of the refusal harnesses)", tags=["C16"]),
+    "w_chdir": dict(about="posix::chdir = exactly one chdir(2) on the prepared C string, errno surfaced (no std path handling in the child)", tags=["C17", "C06"]),
     "w_os_to_cstring_b4": dict(about="os_to_cstring: NUL => EINVAL, else bytes verbatim", bounded="strings of at most 4 bytes", tags=["C06"]),
 }
 KANI_TRUST = [
